@@ -55,7 +55,8 @@ pub fn read_varint<R: Read>(reader: &mut R) -> io::Result<(u64, usize)> {
         value += byte_buf[0] as u64;
     }
 
-    Ok((value, (no_bytes + 1) as usize))
+    // no_bytes comes from the (possibly corrupted) input and can be 255: add in usize, not in u8
+    Ok((value, no_bytes as usize + 1))
 }
 
 /// Write a fixed 8-byte unsigned integer
